@@ -32,6 +32,9 @@ pub struct WirePlan {
     /// authorization required (C15): grants per client
     #[serde(default)]
     pub auth: Option<crate::check_extra::AuthSpec>,
+    /// the server also opens its TCP endpoint (server/tcp.rs); clients with `tcp` connect there
+    #[serde(default)]
+    pub tcp_endpoint: bool,
 }
 
 pub fn mix_for(focus: &str) -> Mix {
@@ -423,6 +426,7 @@ pub fn gen_plan(rng: &mut Rng, focus: &str, thorough: bool) -> WirePlan {
             end: EndKind::Close,
             crash_after_op: None,
             auth_token: None,
+            tcp: false,
         });
         clients.push(ClientPlan {
             proto: Some(1),
@@ -436,6 +440,7 @@ pub fn gen_plan(rng: &mut Rng, focus: &str, thorough: bool) -> WirePlan {
             end: EndKind::Stay,
             crash_after_op: None,
             auth_token: None,
+            tcp: false,
         });
     }
     // an import that re-states a value some client writes, but as another kind of entry or with
@@ -564,6 +569,7 @@ pub fn gen_plan(rng: &mut Rng, focus: &str, thorough: bool) -> WirePlan {
             end: EndKind::Stay,
             crash_after_op: None,
             auth_token: None,
+            tcp: false,
         });
         let wmix = mix_for("C16w");
         for c in 1..=rng.range(1, 3) as usize {
@@ -594,7 +600,7 @@ pub fn gen_plan(rng: &mut Rng, focus: &str, thorough: bool) -> WirePlan {
             clients.push(w);
         }
     }
-    WirePlan {
+    let mut plan = WirePlan {
         focus: focus.to_owned(),
         knobs,
         channel_buffer_size: if focus == "C16" { *rng.pick(&[8usize, 1000]) } else { *rng.pick(&[1usize, 2, 8, 1000, 1000]) },
@@ -610,7 +616,17 @@ pub fn gen_plan(rng: &mut Rng, focus: &str, thorough: bool) -> WirePlan {
             None
         },
         auth,
+        tcp_endpoint: false,
+    };
+    // drawn last, so that everything above is the same plan it was before TCP sessions existed:
+    // in a third of the runs the server opens its TCP endpoint as well and each client picks one
+    if rng.chance(1, 3) {
+        plan.tcp_endpoint = true;
+        for c in plan.clients.iter_mut() {
+            c.tcp = rng.chance(1, 2);
+        }
     }
+    plan
 }
 
 fn witness_id() -> ClientId {
@@ -658,7 +674,16 @@ pub async fn run(plan: WirePlan) -> Outcome {
     let st = plan.send_timeout_s;
     let cl = plan.cluster.clone();
     let auth_key = plan.auth.as_ref().map(|a| a.key.clone());
+    let tcp_on = plan.tcp_endpoint;
     let server = match harness::start_server("wb", move |c| {
+        if tcp_on {
+            c.tcp_disabled = false;
+            c.tcp_endpoint = Some(worterbuch::Endpoint {
+                tls: false,
+                bind_addr: std::net::IpAddr::from([127, 0, 0, 1]),
+                port: 0,
+            });
+        }
         c.auth_token_key = auth_key;
         c.channel_buffer_size = cbs;
         c.extended_monitoring = em;
@@ -728,6 +753,7 @@ pub async fn run(plan: WirePlan) -> Outcome {
             plan: cp.clone(),
             hist: hist.clone(),
             path: server.unix_path.clone(),
+            tcp_addr: if plan.tcp_endpoint { Some(server.tcp_addr()) } else { None },
             answer_wait_us: 3_000_000,
         };
         handles.push(simcore::chaos::spawn_on(simcore::HARNESS, c.run()));
